@@ -23,7 +23,7 @@ import (
 )
 
 // structs for which a Lean structure is generated, in dependency order
-var genStructs = []string{"pathExpression", "Route", "curlyRoute", "WebService", "routeCandidate", "dispatcherCandidate", "Request", "Container"}
+var genStructs = []string{"pathExpression", "Route", "curlyRoute", "WebService", "routeCandidate", "dispatcherCandidate", "sortableRouteCandidates", "sortableDispatcherCandidates", "Request", "Container"}
 var isGenStruct = map[string]bool{}
 
 // flattenRecv: targets translated before struct support whose receiver stays flattened into
@@ -145,7 +145,7 @@ func genStructDecls() string {
 		if n == 0 {
 			b.WriteString("  unit : Unit := ()\n")
 		}
-		b.WriteString("\n")
+		b.WriteString("  deriving Inhabited\n\n")
 	}
 	return b.String()
 }
@@ -227,6 +227,11 @@ func (t *tr) typeOf(e ast.Expr) ast.Expr {
 		}
 		if ty, ok := t.paramStruct[x.Name]; ok {
 			return ty
+		}
+		if v, ok := pkgVars[x.Name]; ok {
+			if cl, ok := v.(*ast.CompositeLit); ok {
+				return cl.Type
+			}
 		}
 	case *ast.SelectorExpr:
 		if st, _ := structName(t.typeOf(x.X)); st != "" {
@@ -401,6 +406,10 @@ func (t *tr) composite(x *ast.CompositeLit) (string, bool) {
 	}
 	mon := false
 	if st, _ := structName(x.Type); st != "" && isGenStruct[st] {
+		return t.structLit(x, st, false)
+	}
+	if false {
+		st := ""
 		var fs []string
 		order := structFieldOrder[st]
 		for i, el := range x.Elts {
@@ -600,4 +609,90 @@ func (t *tr) resultTypes(c *ast.CallExpr) []ast.Expr {
 		}
 	}
 	return out
+}
+
+// structLit: a struct literal; with zeroRest the fields that are not mentioned get their zero value
+// (only the fields some translated function uses exist in the Lean structure)
+func (t *tr) structLit(x *ast.CompositeLit, st string, zeroRest bool) (string, bool) {
+	mon := false
+	set := map[string]string{}
+	order := structFieldOrder[st]
+	for i, el := range x.Elts {
+		name := ""
+		var val ast.Expr = el
+		if kv, ok := el.(*ast.KeyValueExpr); ok {
+			name = kv.Key.(*ast.Ident).Name
+			val = kv.Value
+		} else {
+			if len(x.Elts) != len(order) {
+				fail("positional struct literal %s", src(x))
+			}
+			name = order[i]
+		}
+		if leanType(structFields[st][name]) == "" {
+			fail("struct literal sets %s.%s whose type is outside the subset", st, name)
+		}
+		useField(st, name)
+		v, m := t.expr(val)
+		mon = mon || m
+		set[name] = v
+	}
+	var fs []string
+	for _, f := range order {
+		lt := leanType(structFields[st][f])
+		if lt == "" {
+			continue
+		}
+		if v, ok := set[f]; ok {
+			fs = append(fs, mangle(f)+" := "+v)
+		} else if usedFields[st][f] {
+			if !zeroRest && len(x.Elts) > 0 {
+				// a keyed literal leaves this field to its zero value
+			}
+			fs = append(fs, mangle(f)+" := "+zero(lt))
+		}
+	}
+	if len(fs) == 0 {
+		return "({} : " + goName(st) + ")", mon
+	}
+	return "({ " + strings.Join(fs, ", ") + " } : " + goName(st) + ")", mon
+}
+
+// noEscape: a local initialised with &T{…} is kept as a struct VALUE; that is only right when the pointer
+// is never copied: the name may occur as the root of a selector, as the argument of sort.Reverse, and
+// nowhere else
+func (t *tr) noEscape(name string) {
+	ok := true
+	var walk func(n ast.Node, allowed bool)
+	_ = walk
+	ast.Inspect(t.fd.Body, func(n ast.Node) bool {
+		switch x := n.(type) {
+		case *ast.SelectorExpr:
+			if id, isId := x.X.(*ast.Ident); isId && id.Name == name {
+				return false
+			}
+		case *ast.CallExpr:
+			if src(x.Fun) == "sort.Reverse" && len(x.Args) == 1 && src(x.Args[0]) == name {
+				return false
+			}
+		case *ast.AssignStmt:
+			if x.Tok == token.DEFINE && len(x.Lhs) == 1 && src(x.Lhs[0]) == name {
+				ast.Inspect(x.Rhs[0], func(m ast.Node) bool {
+					if id, isId := m.(*ast.Ident); isId && id.Name == name {
+						ok = false
+					}
+					return true
+				})
+				return false
+			}
+		case *ast.Ident:
+			if x.Name == name {
+				ok = false
+			}
+		}
+		return true
+	})
+	if !ok {
+		fail("the pointer %s := &T{…} is copied", name)
+	}
 }
